@@ -88,7 +88,11 @@ def build(world, spec, parent=None):
     for k, v in spec.get("nsp", []):
         e.addPrefix(k, v)
     for pfx, n, v in spec.get("attrs", []):
-        e.set(n if pfx is None else "%s:%s" % (pfx, n), v)
+        if spec.get("rawattrs"):
+            from suds.sax.attribute import Attribute
+            e.append(Attribute(n if pfx is None else "%s:%s" % (pfx, n), v))
+        else:
+            e.set(n if pfx is None else "%s:%s" % (pfx, n), v)
     if spec.get("text") is not None:
         e.setText(spec["text"])
     world.reg(e)
@@ -469,6 +473,34 @@ def equality_and_doctor(ctx):
                          "untouched)", meta, tree.plain(), before if present else "one added import")
 
 
+def attribute_histories(ctx):
+    """set / unset / getAttribute name exactly one attribute: nodes holding several attributes with one local name
+    (k, p:k, q:k in every order; p and q bound to one URI or to two), every two-step history of set, unset and
+    getAttribute over those names, compared after each step with the reference tree."""
+    import itertools
+    names = [None, "p", "q"]
+    runs = []
+    lists = [l for r in (2, 3) for l in itertools.permutations(names, r)]
+    opsets = [(o, n) for o in ("set", "unset", "getAttribute") for n in ("k", "p:k", "q:k")]
+    for attrs in lists:
+        for quri in ("urn:p", "urn:q"):
+            spec = {"name": "root", "pfx": None, "expns": None, "nsp": [["p", "urn:p"], ["q", quri]], "attrs": [],
+                    "text": None, "kids": [
+                        {"name": "n", "pfx": None, "expns": None, "nsp": [], "rawattrs": True,
+                         "attrs": [[a, "k", "v%d" % i] for i, a in enumerate(attrs)] + [[None, "id", "1"]],
+                         "text": None, "kids": []}]}
+            seqs = list(itertools.product(opsets, repeat=2))
+            if ctx.tier != "thorough":
+                seqs = [x for x in seqs if x[0][0] != "getAttribute"]
+            for seq in seqs:
+                ops = [dict({"op": o, "n": 2, "name": n}, **({"value": "NEW"} if o == "set" else {})) for o, n in seq]
+                it = iter(ops)
+                runs.append(run_history(ctx, [spec], lambda world, step, it=it: next(it, None), 2, "attributes"))
+    for r in runs:
+        r["nontrivial"] = True
+    judge(ctx, runs)
+
+
 def kf_clone_attr_ns(f, k):
     """D21: the clone differs only in the namespace of attributes whose prefix is bound above the cloned node."""
     return f.get("what", "").startswith("clone is not equal") and f.get("masked_equal") is True
@@ -540,6 +572,7 @@ def run(ctx):
     judge(ctx, runs)
     clone_checks(ctx)
     equality_and_doctor(ctx)
+    attribute_histories(ctx)
     if runs:
         ctx.sample({"forest": runs[0]["forest"], "ops": runs[0]["ops"][:4]})
     ctx.sample({"forest": [FIXED], "ops": [{"op": "detach", "n": 3}, {"op": "prune", "n": 1}]})
